@@ -10,6 +10,7 @@ import (
 	"github.com/form3tech-oss/f1/v2/internal/options"
 	"github.com/form3tech-oss/f1/v2/internal/progress"
 	"github.com/form3tech-oss/f1/v2/internal/run/views"
+	"github.com/form3tech-oss/f1/v2/internal/verifhook"
 )
 
 type Result struct {
@@ -88,6 +89,7 @@ func (r *Result) Error() error {
 func (r *Result) Summary() *views.ViewContext[views.ResultData] {
 	r.mu.RLock()
 	defer r.mu.RUnlock()
+	verifhook.Yield("res.summary.locked", r, 0)
 
 	return r.views.Result(views.ResultData{
 		SuccessfulIterationCount:     r.snapshot.SuccessfulIterationDurations.Count,
